@@ -9,6 +9,7 @@ package main
 // abandoned half way (encoders, validator) and documents near a size limit.
 
 import (
+	"sort"
 	"bytes"
 	"fmt"
 	"reflect"
@@ -116,12 +117,42 @@ type reuseKind struct {
 	gen   func(rng *Rng, cfg *configuration.Configuration) reuseOp
 }
 
+// values with shared and cyclic pointers: with Iterator.RecursionSupport the marshalers name them with
+// markers, and the names must start afresh in every document (seeded change C16B3 kept counting)
+type c16Shared struct {
+	Name  string
+	Next  *c16Shared
+	Other *c16Shared
+}
+
 func genValueOp(rng *Rng, marshal func(inst interface{}, v interface{}) ([]byte, error)) reuseOp {
-	vsel := rng.Intn(6)
+	vsel := rng.Intn(7)
 	if reuseRecursiveBias {
 		vsel = 1
 	}
 	switch vsel {
+	case 6:
+		a, b := &c16Shared{Name: "a"}, &c16Shared{Name: "b"}
+		var v interface{}
+		switch rng.Intn(4) {
+		case 0:
+			v = []*c16Shared{a, a}
+		case 1:
+			a.Next = a
+			v = a
+		case 2:
+			a.Next, a.Other, b.Other = b, b, a
+			v = []*c16Shared{a, b, a}
+		default:
+			v = []*c16Shared{a, b}
+		}
+		return reuseOp{fmt.Sprintf("shared pointers %d", rng.Intn(1000)), func(inst interface{}) string {
+			d, err := marshal(inst, v)
+			if err != nil {
+				return errness(err)
+			}
+			return "ok " + hx(d)
+		}}
 	case 0:
 		v := freshUnsupported(rng)
 		return reuseOp{"unsupported-fresh-type " + v.Type().String(), func(inst interface{}) string {
@@ -337,13 +368,33 @@ func genStreamOp(rng *Rng, cfg *configuration.Configuration, gc GenCfg, allowInv
 	return reuseOp{what + " " + EventsText(evs), func(inst interface{}) string { return play(inst, evs) }}
 }
 
+// markerNames: the sorted marker identifiers of a document
+func markerNames(evs []Event) string {
+	var ids []string
+	for _, e := range evs {
+		if e.K == "mk" {
+			ids = append(ids, string(e.D))
+		}
+	}
+	sort.Strings(ids)
+	return "[" + strings.Join(ids, " ") + "]"
+}
+
 func reuseKinds(cfg *configuration.Configuration) []reuseKind {
 	smallCfg := configuration.New()
 	smallCfg.Rules.MaxDocumentSizeBytes = 200
 	streamCfg := allGenCfg()
 	streamCfg.NoCustomText = true
 	cteStreamCfg := cteGenCfg()
+	recCfg := configuration.New()
+	recCfg.Iterator.RecursionSupport = true
 	return []reuseKind{
+		{"cbe-recursion-marshaler", func() interface{} { return ce.NewCBEMarshaler(recCfg) }, func(rng *Rng, c *configuration.Configuration) reuseOp {
+			return genValueOp(rng, func(inst interface{}, v interface{}) ([]byte, error) { return inst.(ce.Marshaler).MarshalToDocument(v) })
+		}},
+		{"cte-recursion-marshaler", func() interface{} { return ce.NewCTEMarshaler(recCfg) }, func(rng *Rng, c *configuration.Configuration) reuseOp {
+			return genValueOp(rng, func(inst interface{}, v interface{}) ([]byte, error) { return inst.(ce.Marshaler).MarshalToDocument(v) })
+		}},
 		{"cbe-marshaler", func() interface{} { return ce.NewCBEMarshaler(cfg) }, func(rng *Rng, c *configuration.Configuration) reuseOp {
 			return genValueOp(rng, func(inst interface{}, v interface{}) ([]byte, error) { return inst.(ce.Marshaler).MarshalToDocument(v) })
 		}},
@@ -487,6 +538,12 @@ func runC16(r *Run) {
 					eb, e2 = cteDecode(db, cfg, false)
 				}
 				if e1 == nil && e2 == nil {
+					// marker names are part of the output: map order may give them to different objects, but the
+					// names in use are the same in a fresh and in a reused instance
+					if ma, mb := markerNames(ea), markerNames(eb); ma != mb {
+						r.out.Finding("C16", "differs:"+kind.name, fmt.Sprintf("operation %d of the history on a reused %s names its markers %s, a fresh instance %s", i+1, kind.name, ma, mb), strings.Join(hist, " || "))
+						break
+					}
 					r.out.Line("prop", fmt.Sprintf("%d|differs:%s", idx, kind.name), "TREE.EQ", []string{"0", "0", EventsText(ea), EventsText(eb)}, "1")
 					r.out.Count("marshal-compared-as-data")
 					continue
